@@ -49,6 +49,48 @@ class Outcome:
         self.violations.append(Violation(clause, detail, sig))
 
 
+WALL_LIMIT = float(os.environ.get("VERIF_CASE_WALL_S", "45"))
+
+
+class CaseWallLimit(KeyboardInterrupt):
+    """Raised by the per-case alarm (a KeyboardInterrupt so that asyncio lets it through)."""
+
+
+def guarded_execute(check, scenario, seed, overrides=None):
+    """check.execute under a wall-clock limit: a simulated run takes milliseconds to a few seconds; one that does not
+    come back (library code spinning inside one loop iteration, virtual time standing still) is a finding - every
+    property presupposes that the instance keeps running - not a reason for the whole check to hang."""
+    import signal
+    import threading
+
+    if threading.current_thread() is not threading.main_thread() or not hasattr(signal, "setitimer"):
+        return check.execute(scenario, seed, overrides) if overrides is not None else check.execute(scenario, seed)
+    fired = [0]
+
+    def on_alarm(signum, frame):
+        fired[0] += 1
+        if fired[0] > 1:
+            os._exit(3)  # not even the clean-up came back
+        signal.setitimer(signal.ITIMER_REAL, 30.0)
+        raise CaseWallLimit()
+
+    old = signal.signal(signal.SIGALRM, on_alarm)
+    signal.setitimer(signal.ITIMER_REAL, WALL_LIMIT)
+    try:
+        return check.execute(scenario, seed, overrides) if overrides is not None else check.execute(scenario, seed)
+    except CaseWallLimit:
+        tb = traceback.format_exc()
+        where = [ln.strip() for ln in tb.splitlines() if "/zeroconf/" in ln][-1:] or ["?"]
+        out = Outcome()
+        out.add(f"{check.PROPERTY}.no-progress", f"the simulated run did not finish within {WALL_LIMIT:.0f} s of wall time "
+                f"(the event loop never got control back; interrupted in {where[0]})")
+        out.digest = "no-progress"
+        return out
+    finally:
+        signal.setitimer(signal.ITIMER_REAL, 0.0)
+        signal.signal(signal.SIGALRM, old)
+
+
 def ensure_hashseed(modname):
     if os.environ.get("PYTHONHASHSEED") != HASHSEED:
         env = dict(os.environ)
@@ -92,7 +134,7 @@ def case_seed(base, i):
 def run_case(check, seed, tier):
     rng = random.Random(f"scenario/{seed}")
     scenario = check.generate(rng, tier)
-    out = check.execute(scenario, seed)
+    out = guarded_execute(check, scenario, seed)
     return scenario, out
 
 
@@ -162,7 +204,7 @@ def _digest_worker(args):
 
 def _fails(check, scenario, seed, clause, overrides=None):
     try:
-        out = check.execute(scenario, seed, overrides)
+        out = guarded_execute(check, scenario, seed, overrides)
     except Exception:
         return None
     known = load_known(check.PROPERTY) if getattr(check, "PROPERTY", None) else []
@@ -254,7 +296,7 @@ def write_replay(check, scenario, seed, v, out, overrides, shrink_execs):
 def do_replay(check, path):
     with open(path) as f:
         rep = json.load(f)
-    out = check.execute(rep["scenario"], rep["seed"], rep.get("decisions"))
+    out = guarded_execute(check, rep["scenario"], rep["seed"], rep.get("decisions"))
     hit = [v for v in out.violations if v.clause == rep["clause"]]
     same_digest = out.digest == rep.get("digest")
     return rep, out, hit, same_digest
@@ -361,7 +403,7 @@ def main(check, argv=None):
                 continue
             try:
                 rep = json.load(open(os.path.join(reg_dir, fn)))
-                rout = check.execute(rep["scenario"], rep["seed"], rep.get("decisions"))
+                rout = guarded_execute(check, rep["scenario"], rep["seed"], rep.get("decisions"))
                 reg_run += 1
                 for v in rout.violations:
                     reg_viols.append((fn, rep, rout, v))
